@@ -133,6 +133,20 @@ func optionSweep(lo, hi int) {
 			n := (k * 7) % 3000
 			conn.EP.Write(tcpip.SlicePayload(r.Bytes(n+1)), tcpip.WriteOptions{})
 			rawpeer.Settle()
+			// acknowledgements that end inside a segment (possibly after covering whole ones),
+			// then silence: the remainder is retransmitted and must still be a well-formed frame
+			if r.Bool() {
+				for i, a := 0, int64(0); i < 1+r.Intn(3) && a < int64(n); i++ {
+					a += 1 + int64(r.Intn(n+1))/2
+					if a > int64(n+1) {
+						a = int64(n + 1)
+					}
+					conn.Send(0, a, rfc.ACK, 65535, nil, nil)
+					time.Sleep(time.Duration(300+r.Intn(1500)) * time.Millisecond)
+					rawpeer.Settle()
+				}
+				run.Count("option_sweep_partial_ack_rounds", 1)
+			}
 			conn.Send(0, 0, rfc.ACK, 65535, r.Bytes(1+r.Intn(100)), nil) // fill the first hole partially
 			conn.EP.Write(tcpip.SlicePayload(r.Bytes(1+k%17)), tcpip.WriteOptions{})
 			rawpeer.Settle()
